@@ -484,6 +484,81 @@ def rule_k6(ctx, facts):
                      "no Table::new reachable" if not hit else "reaches %s via %s" % (hit[0], " -> ".join(x[0] for x in cg.chain(seen, hit[0]))))
 
 
+def rule_k10(ctx, facts):
+    """add_count leaves its resize loop with the count below the threshold, or for a reason that has nothing to do with the count: the
+    exits of the loop compare the count with size_ctl only, and none of them depends on the resize hint.  (An insert that may return
+    with count >= size_ctl hands the resize to whoever calls add_count next -- for instance a removal.)"""
+    from .affine import branch_facts
+    from .analysis import back_edges, loop_blocks
+    ac = facts.body("HashMap::add_count")
+    ev = evaluator(ac)
+    fl = flow(ac)
+    sc_loads = find_size_ctl_loads(ac)
+    cnt_calls = [c for c in ac.calls if is_std_atomic(c) in ("fetch_add", "fetch_sub", "load") and ("map::HashMap", "count") in receiver_field(ac, c, 0)]
+    hint_k = [k for k in range(1, ac.nargs + 1) if ac.ty(k).get("s", "").startswith("std::option::Option<usize>")]
+    hint_locals = set()
+    for k in hint_k:
+        hint_locals |= fl.flows_to(k)
+
+    def closure_syms(seed_calls):
+        syms = {("call", c.b) for c in seed_calls}
+        grew = True
+        while grew:
+            grew = False
+            for l in range(len(ac.locals)):
+                if ("phi", l) in syms:
+                    continue
+                for pt, f in ev.def_forms(l):
+                    if f is not TOP and f.symbols() & syms and len(ac.defs.get(l, [])) > 1:
+                        syms.add(("phi", l))
+                        grew = True
+                        break
+        return syms
+    cnt_syms, sc_syms = closure_syms(cnt_calls), closure_syms(sc_loads)
+
+    def is_hint(sym):
+        if sym[0] == "arg":
+            return sym[1] in hint_k
+        if sym[0] == "phi":
+            return sym[1] in hint_locals
+        if sym[0] == "place":
+            return sym[1] in hint_locals or sym[1] in hint_k
+        if sym[0] == "call":
+            c = ac.call_at(sym[1])
+            return c is not None and c.dst_local() in hint_locals
+        return False
+    loops = []
+    for be in back_edges(ac):
+        L = loop_blocks(ac, be)
+        if any(c.b in L for c in sc_loads):
+            loops.append(L)
+    if not loops:
+        ctx.fail_closed("K10: the resize loop of add_count (a loop that loads size_ctl) was not found")
+        return
+    L = max(loops, key=len)
+    n = 0
+    for blk, tgt, kind, lin, bound in branch_facts(ac):
+        if blk not in L or tgt in L or ac.is_cleanup(tgt):
+            continue
+        syms = lin.symbols()
+        hs = [x for x in syms if is_hint(x)]
+        cs = [x for x in syms if x in cnt_syms]
+        if not hs and not cs:
+            continue
+        n += 1
+        others = [x for x in syms if x not in cnt_syms and x not in sc_syms]
+        ok = not hs and not (cs and others)
+        ctx.inst("K10", ac, "exit of the resize loop", ac.term(blk)["span"], ok,
+                 "the loop is left on count < size_ctl" if ok else
+                 ("the resize loop of add_count is left on a condition on the resize hint" if hs else
+                  "the resize loop of add_count is left on a comparison of the count with %s instead of size_ctl" % ", ".join(
+                      Aff.sym(x).show(ac) for x in others)) +
+                 ": an insert can return with the count at or above the threshold, and the next caller of add_count -- a removal included -- "
+                 "then grows the table")
+    if n < 1:
+        ctx.fail_closed("K10: no exit of the resize loop compares the count with size_ctl")
+
+
 def rule_k9(ctx, facts):
     tb = facts.body("HashMap::treeify_bin")
     ac = facts.body("HashMap::add_count")
@@ -520,6 +595,9 @@ def run(ctx, facts):
     ctx.rule("K9", "treeify_bin (which grows a table shorter than 64 instead of converting the bin) is called only by an inserting "
                    "operation -- one that adds 1 to the count -- and never by one that can only update or remove", floor=1)
     rule_k9(ctx, facts)
+    ctx.rule("K10", "add_count leaves its resize loop only with count < size_ctl or for a reason independent of the count and of the "
+                    "resize hint", floor=1)
+    rule_k10(ctx, facts)
     rule_k1(ctx, facts)
     rule_k2(ctx, facts)
     rule_k3_k4(ctx, facts)
